@@ -665,11 +665,17 @@ func (fc *followerController) SendSnapshot(stream proto.OxiaLogReplication_SendS
 	return closeStreamWg.Wait(fc.ctx)
 }
 
-func (fc *followerController) readSnapshotStream(stream proto.OxiaLogReplication_SendSnapshotServer, loader kv.SnapshotLoader) (int64, error) {
+func (fc *followerController) readSnapshotStream(firstChunk *proto.SnapshotChunk, stream proto.OxiaLogReplication_SendSnapshotServer, loader kv.SnapshotLoader) (int64, error) {
 	var totalSize int64
 
 	for {
-		snapChunk, err := stream.Recv()
+		var snapChunk *proto.SnapshotChunk
+		var err error
+		if firstChunk != nil {
+			snapChunk, firstChunk = firstChunk, nil
+		} else {
+			snapChunk, err = stream.Recv()
+		}
 		switch {
 		case err != nil:
 			if errors.Is(err, io.EOF) {
@@ -709,8 +715,20 @@ func (fc *followerController) handleSnapshot(stream proto.OxiaLogReplication_Sen
 	fc.Lock()
 	defer fc.Unlock()
 
+	// Nothing is touched before the snapshot is known to come from the leader of the current term:
+	// a deposed leader that still believes it leads can open a snapshot stream too
+	firstChunk, err := stream.Recv()
+	if err != nil {
+		fc.closeStreamNoMutex(err)
+		return
+	}
+	if fc.term != wal.InvalidTerm && firstChunk.Term != fc.term {
+		fc.closeStreamNoMutex(constant.ErrInvalidTerm)
+		return
+	}
+
 	// Wipe out both WAL and DB contents
-	err := fc.wal.Clear()
+	err = fc.wal.Clear()
 	if err != nil {
 		fc.closeStreamNoMutex(err)
 		return
@@ -734,7 +752,7 @@ func (fc *followerController) handleSnapshot(stream proto.OxiaLogReplication_Sen
 
 	defer loader.Close()
 
-	totalSize, err := fc.readSnapshotStream(stream, loader)
+	totalSize, err := fc.readSnapshotStream(firstChunk, stream, loader)
 	if err != nil {
 		return
 	}
